@@ -4615,7 +4615,7 @@ func (n *FlowSpecNLRI) decodeFromBytes(data []byte, options ...*MarshallingOptio
 	}
 	var length int
 	if data[0]>>4 == 0xf && len(data) > 2 {
-		length = int(binary.BigEndian.Uint16(data[:2]))
+		length = int(binary.BigEndian.Uint16(data[:2]) & 0x0fff)
 		data = data[2:]
 	} else if len(data) > 1 {
 		length = int(data[0])
@@ -4737,7 +4737,8 @@ func (n *FlowSpecNLRI) Serialize(options ...*MarshallingOption) ([]byte, error) 
 	} else {
 		length -= 2
 		b := make([]byte, 2)
-		binary.BigEndian.PutUint16(buf, uint16(length))
+		// 2-octet length: the high nibble is the marker 0xf (RFC 8955 4.1)
+		binary.BigEndian.PutUint16(b, 0xf000|uint16(length))
 		buf = append(b, buf...)
 	}
 	return buf, nil
